@@ -46,6 +46,14 @@ Proof.
   intros Hv Hl Hok Ha. unfold value_ok. rewrite Hv, (parse_attr_list_render l Hl Hok), Ha. reflexivity.
 Qed.
 
+(* an accepted attribute list is one line *)
+Lemma attrs_value_no_crlf name spec v b :
+  t_value spec = VAttrList -> value_ok name spec (Some v) = (true, b) -> no_crlf v = true.
+Proof.
+  intros Hv H. unfold value_ok in H. rewrite Hv in H.
+  destruct (parse_attr_list v) eqn:E; [|discriminate]. eapply parse_attr_list_no_crlf; eauto.
+Qed.
+
 Lemma quoted_sitem s : quoted_ok s = true -> no_byte DQ s && no_crlf s = true.
 Proof. unfold quoted_ok. intros H. apply andb_true_iff in H as [A B]. now rewrite A, B. Qed.
 
